@@ -166,6 +166,9 @@ CLASSES = [
     (4, re.compile(r"^\s*CREATE SCHEMA\b", re.I)),
     (5, re.compile(r"^\s*SET schema\s*=", re.I)),
     (7, re.compile(r"INSERT INTO \S+\.information_schema\._fs_tables_ext", re.I)),
+    (14, re.compile(r"^\s*CREATE OR REPLACE TEMPORARY TABLE MERGE_CANDIDATES\b", re.I)),
+    (15, re.compile(r"^\s*INSERT INTO\b.*\bFROM MERGE_CANDIDATES\b", re.I | re.S)),
+    (16, re.compile(r"^\s*SELECT COUNT_IF\(MERGE_OP\b.*\bFROM MERGE_CANDIDATES\b", re.I | re.S)),
     (6, re.compile(r"^\s*CREATE TABLE\b", re.I)),
     (8, re.compile(r"^\s*INSERT INTO\b", re.I)),
     (10, re.compile(r"^\s*SELECT .* FROM information_schema\.tables\b.*_fs_tables_ext", re.I | re.S)),
